@@ -315,7 +315,10 @@ fn write_project(dir: &Path, r: &mut Rng, cfg: &TrendConfig, auto: bool, content
 fn emit_binary_history(sink: &mut Sink, r: &mut Rng, scratch: &str, bin: &str, steps: usize) {
     let dir = PathBuf::from(scratch).join(format!("h{}", sink.n));
     let cfg = gen_cfg(r, false);
-    let content_exclude = r.chance(1, 4);
+    // the first history of a run always has a content-excluded file and starts with an
+    // auto-snapshotting check (the known finding is reproduced on every run)
+    let first = sink.n == 0;
+    let content_exclude = r.chance(1, 4) || first;
     let count_all = (r.chance(1, 3), r.chance(1, 3));
     write_project(&dir, r, &cfg, true, content_exclude, count_all);
     let p = Project { dir: dir.clone(), bin: bin.to_string() };
@@ -341,8 +344,10 @@ fn emit_binary_history(sink: &mut Sink, r: &mut Rng, scratch: &str, bin: &str, s
         }
         let before = p.history();
         let whole = p.summary(now);
-        let op = r.below(9);
+        let op = if first && sink.n == 0 { let _ = r.below(10); 4 } else { r.below(10) };
+        let narrowed: &[&str] = *r.fork().pick(&[&["--exclude", "src/a.rs"][..], &["--ext", "rs"][..], &["src/a.rs", "src/b.rs"][..], &["--include", "src/b.rs"][..]]);
         let (label, force, dry, restricted): (&str, bool, bool, bool) = match op {
+            9 => ("check-narrowed", false, false, true),
             8 => ("check-auto-ff", false, false, false),
             0 | 1 => ("snapshot", false, false, false),
             2 => ("snapshot-force", true, false, false),
@@ -363,6 +368,11 @@ fn emit_binary_history(sink: &mut Sink, r: &mut Rng, scratch: &str, bin: &str, s
             "stats" => vec!["stats", "trend", "--no-sloc-cache"],
             _ => vec!["check", "--no-sloc-cache", "--no-config"],
         };
+        if label == "check-narrowed" {
+            // a passing check of a part of the project: other targets, --include, --exclude, --ext
+            argv = vec!["check", "--no-sloc-cache"];
+            argv.extend(narrowed.iter());
+        }
         let (rc, out, err) = p.run(now, &argv);
         // the tool's own claim: snapshot says when it skips, check says when it records
         let claims_recorded = if label.starts_with("snapshot") { !out.contains("Snapshot skipped") && !dry } else { err.contains("Auto-snapshot recorded") };
@@ -381,7 +391,9 @@ fn emit_binary_history(sink: &mut Sink, r: &mut Rng, scratch: &str, bin: &str, s
         if err.contains("panicked at") || rc == 101 {
             pred = Some(format!("{label} panicked"));
         }
-        if !writes && after != before {
+        if label == "check-narrowed" && after != before {
+            pred = Some(format!("`check {}` recorded an auto-snapshot of the part it looked at: {:?}, the whole project is {whole:?}", narrowed.join(" "), appended));
+        } else if !writes && after != before {
             pred = Some(if stopped_early { "a check that fail-fast stopped early recorded its partial totals as an auto-snapshot".to_string() } else { format!("read-only command {label} modified the history") });
         }
         if writes {
